@@ -22,6 +22,7 @@ package main
 
 import (
 	"bytes"
+	"crypto/sha256"
 	"encoding/hex"
 	"fmt"
 	"io"
@@ -81,10 +82,18 @@ type shortKeyRand struct {
 	r     *rand.Rand
 	prob  int // per cent
 	dist  map[string]int
+	// exponents to hand out on the next 40 byte reads (reads of other sizes - instance tag, r - pass by)
+	force40 [][]byte
 }
 
 func (k *shortKeyRand) Read(p []byte) (int, error) {
 	n, err := k.inner.Read(p)
+	if err == nil && len(p) == 40 && len(k.force40) > 0 {
+		copy(p, k.force40[0])
+		copy(k.inner.history[len(k.inner.history)-1], k.force40[0])
+		k.force40 = k.force40[1:]
+		return n, err
+	}
 	if err == nil && len(p) == 40 && k.r.Intn(100) < k.prob {
 		x := make([]byte, 40)
 		for {
@@ -100,9 +109,40 @@ func (k *shortKeyRand) Read(p []byte) (int, error) {
 	return n, err
 }
 
+// two D-H exponents whose shared secret s = g^(xy) mod p has a zero top byte (one exchange in 256 is
+// like that): as an MPI s is then shorter than the modulus, and it is the MPI that is hashed into the
+// session id and the keys c, c', m1, m2, m1', m2'
+func specShortSecretPair(r *rand.Rand) (x, y []byte) {
+	x, y = make([]byte, 40), make([]byte, 40)
+	r.Read(x)
+	gx := new(big.Int).Exp(big.NewInt(2), new(big.Int).SetBytes(x), specDHP)
+	for {
+		r.Read(y)
+		if new(big.Int).Exp(gx, new(big.Int).SetBytes(y), specDHP).BitLen() <= 1528 {
+			return
+		}
+	}
+}
+
+// the session id the document prescribes for the exponents x and y: the first 64 bits of
+// SHA256(0x00 || MPI(s)), s = g^(xy) mod p, the MPI without leading zero bytes
+func specSSID(xh, yh string) (ssid [8]byte, sLen int) {
+	xb, _ := hex.DecodeString(xh)
+	yb, _ := hex.DecodeString(yh)
+	sec := new(big.Int).Exp(big.NewInt(2), new(big.Int).SetBytes(xb), specDHP)
+	sec.Exp(sec, new(big.Int).SetBytes(yb), specDHP)
+	sb := sec.Bytes()
+	h := sha256.New()
+	h.Write([]byte{0, byte(len(sb) >> 24), byte(len(sb) >> 16), byte(len(sb) >> 8), byte(len(sb))})
+	h.Write(sb)
+	copy(ssid[:], h.Sum(nil)[:8])
+	return ssid, len(sb)
+}
+
 type specParty struct {
 	*party
 	dkey *detKey
+	skr  *shortKeyRand
 	pol  int
 	frag int
 	role string // "B" (sent the D-H Commit) or "A"
@@ -176,7 +216,8 @@ func specNewParty(g *gen, id string, pol, keyIdx, frag int) *specParty {
 	c := &otr3.Conversation{}
 	p := &party{id: id, c: c, keyIdx: keyIdx}
 	p.rnd = &logRand{r: rand.New(rand.NewSource(g.r.Int63())), failAt: -1, shortAt: -1}
-	c.Rand = &shortKeyRand{inner: p.rnd, r: rand.New(rand.NewSource(g.r.Int63())), prob: []int{0, 0, 10, 25}[g.r.Intn(4)], dist: g.dist}
+	skr := &shortKeyRand{inner: p.rnd, r: rand.New(rand.NewSource(g.r.Int63())), prob: []int{0, 0, 10, 25}[g.r.Intn(4)], dist: g.dist}
+	c.Rand = skr
 	c.Policies = 0
 	verifSetPolicies(c, pol)
 	dk := &detKey{DSAPrivateKey: testKeys[keyIdx], r: rand.New(rand.NewSource(g.r.Int63()))}
@@ -187,7 +228,7 @@ func specNewParty(g *gen, id string, pol, keyIdx, frag int) *specParty {
 	c.SetSMPEventHandler(p)
 	c.SetReceivedKeyHandler(p)
 	c.SetErrorMessageHandler(p)
-	return &specParty{party: p, dkey: dk, pol: pol, frag: frag}
+	return &specParty{party: p, dkey: dk, skr: skr, pol: pol, frag: frag}
 }
 
 // ---------- wire helpers ----------
@@ -827,7 +868,17 @@ func (s *specScenario) beginAKE() akeMarks {
 	return m
 }
 
+// the next key exchange gets a shared secret with a zero top byte: the next D-H exponent either party
+// draws is one of a pair found by search (whoever of them sends the D-H Commit)
+func (s *specScenario) forceShortSecret() {
+	x, y := specShortSecretPair(rand.New(rand.NewSource(s.g.r.Int63())))
+	s.a.skr.force40 = [][]byte{x}
+	s.b.skr.force40 = [][]byte{y}
+	s.g.dist["ake:short-shared-secret-forced"]++
+}
+
 func (s *specScenario) runAKE(marks akeMarks) bool {
+	defer func() { s.a.skr.force40, s.b.skr.force40 = nil, nil }()
 	for i := 0; i < 40 && !s.dead; i++ {
 		progressed := false
 		for _, to := range []*specParty{s.b, s.a} {
@@ -888,6 +939,16 @@ func (s *specScenario) runAKE(marks akeMarks) bool {
 	olog.ok("C10")
 	if ssidA != ssidB {
 		specViol("ssid-differs", fmt.Sprintf("the two parties computed different session ids %x / %x", ssidB, ssidA))
+	}
+	// the session id shown to the users, re-derived from the two exponents with nothing but SHA-256
+	olog.ok("C10")
+	wantSSID, sLen := specSSID(x, y)
+	if sLen < 192 {
+		s.g.dist["ake:short-shared-secret"]++
+	}
+	if ssidB != wantSSID || ssidA != wantSSID {
+		specViol("ssid-not-as-specified", fmt.Sprintf("OTRv%d key exchange %s with D-H exponents x=%s (sender of the D-H Commit) and y=%s: the shared secret s = g^(xy) mod p takes %d bytes, the document prescribes the session id SHA256(0x00 || MPI(s))[0:8] = %x, %s (sender of the D-H Commit) shows %x, %s shows %x",
+			s.ver, s.sid, x, y, sLen, wantSSID, bob.id, ssidB, alice.id, ssidA))
 	}
 	s.emit(fmt.Sprintf("spec.ake %s %d %d %d %s %s %s %d %d %s %s %d %d", s.sid, s.ver, snB.OurTag, snA.OurTag, x, r, y, bob.keyIdx, alice.keyIdx,
 		sB, sA, snB.OurKeyID-1, snA.OurKeyID-1), fmt.Sprintf("ok ssid=%x sigB=true sigA=true wf=true", ssidB[:]))
@@ -1068,20 +1129,29 @@ func (s *specScenario) step() {
 		s.replay(p)
 	case k < 38:
 		// a new key exchange inside the encrypted session (nothing in flight, the last one a while ago)
-		s.drain()
-		if s.dead || !s.a.c.IsEncrypted() || !s.b.c.IsEncrypted() {
-			return
-		}
-		g.dist["act:re-ake"]++
-		otr3.VerifShiftClock(s.a.c, 61*time.Second)
-		otr3.VerifShiftClock(s.b.c, 61*time.Second)
-		marks := s.beginAKE()
-		s.emitted(p, []otr3.ValidMessage{p.c.QueryMessage()}, nil, otr3.VerifSnapshot(p.c))
-		if !s.runAKE(marks) {
-			s.dead = true
-		}
+		s.reAKE(p, false)
 	default:
 		s.sendText(p, []byte{})
+	}
+}
+
+// a new key exchange inside the encrypted session, begun by p's query message
+func (s *specScenario) reAKE(p *specParty, shortSecret bool) {
+	g := s.g
+	s.drain()
+	if s.dead || !s.a.c.IsEncrypted() || !s.b.c.IsEncrypted() {
+		return
+	}
+	g.dist["act:re-ake"]++
+	otr3.VerifShiftClock(s.a.c, 61*time.Second)
+	otr3.VerifShiftClock(s.b.c, 61*time.Second)
+	marks := s.beginAKE()
+	if shortSecret {
+		s.forceShortSecret()
+	}
+	s.emitted(p, []otr3.ValidMessage{p.c.QueryMessage()}, nil, otr3.VerifSnapshot(p.c))
+	if !s.runAKE(marks) {
+		s.dead = true
 	}
 }
 
@@ -1370,6 +1440,11 @@ func (g *gen) specScenario(idx int) {
 	g.dist[fmt.Sprintf("fragsize:%v", s.b.frag > 0)]++
 	snap := otr3.VerifSnapshot(s.a.c)
 	marks := s.beginAKE()
+	// in every run: one session whose first key exchange, and one whose re-keying exchange, has a
+	// shared secret with a zero top byte
+	if idx%6 == 0 {
+		s.forceShortSecret()
+	}
 	switch mode {
 	case 0:
 		s.emitted(s.a, []otr3.ValidMessage{s.a.c.QueryMessage()}, nil, snap)
@@ -1391,6 +1466,12 @@ func (g *gen) specScenario(idx int) {
 	steps := 8 + g.r.Intn(22)
 	for i := 0; i < steps && !s.dead; i++ {
 		s.step()
+	}
+	if idx%6 == 1 && !s.dead {
+		s.reAKE([]*specParty{s.a, s.b}[g.r.Intn(2)], true)
+		for i, n := 0, 3+g.r.Intn(6); i < n && !s.dead; i++ {
+			s.step()
+		}
 	}
 	s.drain()
 	if s.dead || !s.a.c.IsEncrypted() || !s.b.c.IsEncrypted() {
